@@ -98,6 +98,14 @@ service {
     options { idempotency_level: IDEMPOTENT } }
   method { name: "Query" input_type: ".verif.v1.Msg" output_type: ".verif.v1.Msg"
     options { idempotency_level: NO_SIDE_EFFECTS [google.api.http] { get: "/v1/query" response_body: "child" } } }
+  method { name: "Kids" input_type: ".verif.v1.Msg" output_type: ".verif.v1.Msg"
+    options { [google.api.http] { post: "/v1/kids" body: "kids" response_body: "kids" } } }
+  method { name: "Tags" input_type: ".verif.v1.Msg" output_type: ".verif.v1.Msg"
+    options { [google.api.http] { post: "/v1/tags" body: "tags" response_body: "tags" } } }
+  method { name: "Labels" input_type: ".verif.v1.Msg" output_type: ".verif.v1.Msg"
+    options { [google.api.http] { post: "/v1/labels" body: "labels" response_body: "labels" } } }
+  method { name: "Num" input_type: ".verif.v1.Msg" output_type: ".verif.v1.Msg"
+    options { [google.api.http] { post: "/v1/num" body: "num" response_body: "num" } } }
   method { name: "CStream" input_type: ".verif.v1.Msg" output_type: ".verif.v1.Msg" client_streaming: true }
   method { name: "SStream" input_type: ".verif.v1.Msg" output_type: ".verif.v1.Msg" server_streaming: true }
   method { name: "Bidi" input_type: ".verif.v1.Msg" output_type: ".verif.v1.Msg" client_streaming: true server_streaming: true }
